@@ -219,7 +219,8 @@ def run_case(case):
         vio.append({'prop': PROP, 'kind': 'multi-lf-write-aborted', 'mech': 'write-aborted:record-count',
                     'detail': f'{nlf} logical files: write raised {run.wout[1]}: {run.wout[2][:120]}'})
     if run.data is None and (case['kind'] in ('frames', 'runs') or 'not a no-format object of this logical file' in run.wout[2]
-                             or 'has not been added to the same logical file' in run.wout[2]):
+                             or 'has not been added to the same logical file' in run.wout[2]
+                             or 'is not that of any origin of the logical file' in run.wout[2]):
         # these specifications are valid by construction (and none of this workload hands an object to another logical
         # file): a refusal means that something of another logical file / another DLISFile got in
         vio.append({'prop': PROP, 'kind': 'valid-spec-refused', 'mech': 'refused:' + run.wout[1],
